@@ -23,7 +23,8 @@ EXPLANATION = (
     "constructors agree; (R4) the twin container functions (add_missing_columns, strict_filter_columns, "
     "check_column_presence, check_column_values_are_unique, collect_column_info, coerce/set_default stages) reach "
     "the same SchemaErrorReason / effect under the same conditions on schema attributes, with pd.isna(x) == "
-    "`x is None` == missing(x). NOT decided: equality of failing cells and parsed outputs on data; numeric/regex "
+    "`x is None` == missing(x). (R5) neither backend's uniqueness check filters or masks nulls (duplicated()/is_duplicated() both count repeated nulls); (R6) both containers decide `declares a default` by `default is (not) None`, never by truthiness. " 
+    "NOT decided: equality of failing cells and parsed outputs on data; numeric/regex "
     "dialect differences between python re/numpy and rust."
 )
 LEVEL_RULE = "one obligation per (check, option assignment, backend) / signature / twin effect site"
